@@ -1,7 +1,7 @@
 // C10: drives the real NTS authentication code of /repo: nts.NewRequestPacket,
 // NewResponsePacket, EncodePacket, DecodePacket, ProcessRequest, ProcessResponse,
 // the ntske cookie functions, ntske.ExportKeys over a real TLS 1.3 handshake,
-// and the real IP listener (listener.go).  Honest packets are produced by the
+// and the real IP and SCION listeners (listener.go).  Honest packets are produced by the
 // project's own encoder; they are then mutated (every bit, every field, length
 // fields, structure), replayed to the wrong receiver, under the wrong key,
 // direction or unique identifier.  The AEAD answers that go into the case file
@@ -506,6 +506,10 @@ func recv(tags string, hs []*honest, dir int, b, key, reqid []byte) (accepted bo
 					after = d.Cookie
 				}
 			}
+		} else if dir == 1 {
+			// a rejected packet: whatever the client's fetcher holds now was taken from a
+			// packet that did not authenticate (the fetcher was empty before)
+			after = f.VerifData().Cookie
 		}
 		outs = lib.V(dec, lib.I(int64(acode)), BL(after))
 	} else {
@@ -695,9 +699,14 @@ type target struct {
 	dir   int
 	key   []byte
 	reqid []byte
+	l     *lsn     // not nil: deliver to this listener instead of the receiver functions
+	sess  *session // the session whose keys verify the listener's reply
 }
 
 func deliver(tags string, hs []*honest, t target, b []byte) bool {
+	if t.l != nil {
+		return len(t.l.srvCase(tags, hs, b, t.sess)) > 0
+	}
 	return recv(tags, hs, t.dir, b, t.key, t.reqid)
 }
 
@@ -1223,7 +1232,13 @@ func main() {
 	a := lib.ParseArgs()
 	crand.Reader = tape
 	w = lib.NewWriter(a.Out)
-	defer w.Close()
+	defer func() {
+		w.Close()
+		if sentinelLost {
+			// a listener stopped answering: its remaining cases were not driven
+			os.Exit(3)
+		}
+	}()
 	if a.Replay != "" {
 		replay(a.Replay)
 		return
